@@ -1,9 +1,11 @@
+mod cell;
 mod conc;
 mod ebr;
 mod list;
 mod pure;
 mod queue;
 mod sched;
+mod traits;
 mod util;
 
 use util::arg;
@@ -58,8 +60,70 @@ fn main() {
             let lines = o.finish();
             println!("{}: cases={} lines={} monitor_failures={}", cmd, n, lines, fails);
         }
+        "traits" => {
+            let (lines, props, fails) = traits::run(&out, seed, thorough);
+            println!("traits: lines={} property_checks={} property_failures={}", lines, props, fails);
+        }
+        "cell" => {
+            match arg(&args, "--kind").as_deref() {
+                Some("strong") => cell::FORCE_KIND.store(1, std::sync::atomic::Ordering::Relaxed),
+                Some("weak") => cell::FORCE_KIND.store(2, std::sync::atomic::Ordering::Relaxed),
+                _ => {}
+            }
+            let n: usize = arg(&args, "--cases").and_then(|s| s.parse().ok()).unwrap_or(if thorough { 200 } else { 300 });
+            let mut o = util::Out::create(&out);
+            let mut rng = util::Rng::new(seed);
+            let (mut fails, mut discarded, mut strong, mut weak) = (0, 0, 0, 0);
+            let (mut ok, mut err, mut retry) = (0, 0, 0);
+            let mut epochs = std::collections::BTreeSet::new();
+            let mut done = 0;
+            while done < n {
+                let p = cell::gen_program(&mut rng, thorough);
+                let (line, mon) = cell::run_case(&p, &mut rng, None);
+                if line.is_empty() {
+                    discarded += 1;
+                    if discarded > 10 * n + 100 {
+                        eprintln!("cell: too many discarded cases");
+                        std::process::exit(1);
+                    }
+                    continue;
+                }
+                done += 1;
+                if p.strong {
+                    strong += 1;
+                } else {
+                    weak += 1;
+                }
+                if let Some(e) = line.split_whitespace().nth(2).and_then(|s| s.parse::<u64>().ok()) {
+                    epochs.insert(e % 16);
+                }
+                let (a, b, c) = cell::line_stats(&line);
+                ok += a;
+                err += b;
+                retry += c;
+                o.line(&line);
+                for m in mon {
+                    fails += 1;
+                    o.line(&m);
+                }
+            }
+            let lines = o.finish();
+            println!(
+                "cell: cases={} lines={} monitor_failures={} discarded={} strong={} weak={} epochs_mod16={} cas_ok={} cas_err={} ts_retries={}",
+                n,
+                lines,
+                fails,
+                discarded,
+                strong,
+                weak,
+                epochs.len(),
+                ok,
+                err,
+                retry
+            );
+        }
         _ => {
-            eprintln!("usage: circ-verif-harness <pure> [--seed N] [--tier quick|thorough] [--out FILE]");
+            eprintln!("usage: circ-verif-harness <pure|ebr|queue|list|cell|traits> [--seed N] [--tier quick|thorough] [--out FILE]");
             std::process::exit(2);
         }
     }
